@@ -42,7 +42,8 @@ theorem observers_pure (s : State) (p : Str) (w : World) :
     (fs s).metadata p w = (metadata s p, w) ∧
     (fs s).exists_ p w = (.ok (exists_ s p), w) := ⟨rfl, rfl, rfl, rfl⟩
 
-/-- observers never panic (the model has no panic site here: `normalize_path("")` is `""`) -/
+/-- observers never panic, whatever the path (`normalize_path("")` is `""`, `open_file` goes
+through `normalize_path` like the others) -/
 theorem observers_no_panic (s : State) (p : Str) :
     readDir s p ≠ .panic ∧ openFile s p ≠ .panic ∧ metadata s p ≠ .panic := by
   refine ⟨?_, ?_, ?_⟩
@@ -147,14 +148,16 @@ theorem get?_add_self (d : DirMap) (k c : Str) :
 theorem get?_add_ne (d : DirMap) (k c k' : Str) (h : k' ≠ k) :
     (d.add k c).get? k' = d.get? k' := by
   induction d with
-  | nil => simp [DirMap.add, DirMap.get?, fun e => h (Eq.symm e)]
+  | nil =>
+    have h' : ¬ k = k' := fun e => h e.symm
+    simp [DirMap.add, DirMap.get?, h']
   | cons kv rest ih =>
     obtain ⟨k1, v⟩ := kv
     unfold DirMap.add
     by_cases h1 : k1 = k
-    · have : k1 ≠ k' := by rw [h1]; exact fun e => h e.symm
-      simp [h1, DirMap.get?, this]
-      intro e; exact absurd e.symm h
+    · subst h1
+      have h' : ¬ k1 = k' := fun e => h e.symm
+      simp [DirMap.get?, h']
     · simp only [if_neg h1, DirMap.get?, ih]
 
 theorem has_add (d : DirMap) (k c k' c' : Str) :
@@ -249,7 +252,7 @@ theorem isSome_get?_iff (d : DirMap) (h : NonEmptyVals d) (k : Str) :
     have := h k v hg
     cases v with
     | nil => exact absurd rfl this
-    | cons a t => simp; exact ⟨a, Or.inl rfl⟩
+    | cons a t => simp
 
 /-- one run of the `while let Some((prefix, suffix)) = rsplit_once(path)` loop on the path
 with components `cs`: it records, for every split `cs = pre ++ x :: post`, the child `x`
@@ -541,9 +544,9 @@ theorem readDir_file (fl : List (Str × Bytes)) (hF : FolderLike fl) (f : Str) (
 
 /-! ### directories -/
 
-/-- every proper directory prefix `pre` (at least one component) of an embedded path is a
-directory: it lists the next component, its metadata is a directory of length 0, it exists,
-and it cannot be opened as a file -/
+/-- every proper directory prefix `pre` of an embedded path (`pre = []` is the root, spelled
+"/") is a directory: it lists the next component, each name once, its metadata is a directory
+of length 0, it exists, and it cannot be opened as a file -/
 theorem dir_visible (fl : List (Str × Bytes)) (hF : FolderLike fl) (f : Str × Bytes)
     (hf : f ∈ fl) (pre post : List Str) (c : Str)
     (hsp : splitSlash f.1 = pre ++ c :: post) :
@@ -560,6 +563,46 @@ theorem dir_visible (fl : List (Str × Bytes)) (hF : FolderLike fl) (f : Str × 
   have hs : (new fl).files = fl := rfl
   refine ⟨v, hv, hc, hnd, ?_, ?_, ?_, ?_⟩ <;>
     simp [readDir, metadata, exists_, openFile, normalize, hs, hv, hnf]
+
+/-- a list is its first `k` elements, then the `k`-th, then the rest -/
+theorem split_at_index (cs : List Str) (k : Nat) (hk : k < cs.length) :
+    cs = cs.take k ++ cs[k] :: cs.drop (k + 1) := by
+  conv => lhs; rw [← List.take_append_drop k cs]
+  rw [List.drop_eq_getElem_cons hk]
+
+/-- the same with indices: the first `k` components of an embedded path (`k` smaller than
+the number of components) form a directory that lists the `k+1`-th component -/
+theorem dir_visible_index (fl : List (Str × Bytes)) (hF : FolderLike fl) (f : Str × Bytes)
+    (hf : f ∈ fl) (k : Nat) (hk : k < (splitSlash f.1).length) :
+    ∃ children,
+      (new fl).directoryMap.get? (key ((splitSlash f.1).take k)) = some children ∧
+      (splitSlash f.1)[k] ∈ children ∧
+      readDir (new fl) ('/' :: key ((splitSlash f.1).take k)) = .ok children ∧
+      metadata (new fl) ('/' :: key ((splitSlash f.1).take k)) =
+        .ok { ftype := .dir, len := 0, created := .unset, modified := .unset,
+              accessed := .unset } := by
+  obtain ⟨v, h1, h2, _, h3, h4, _⟩ := dir_visible fl hF f hf _ _ _
+    (split_at_index (splitSlash f.1) k hk)
+  exact ⟨v, h1, h2, h3, h4⟩
+
+/-- a directory prefix in terms of strings: an embedded file `d/rest` makes "/d" a directory -/
+theorem dir_visible_str (fl : List (Str × Bytes)) (hF : FolderLike fl) (d rest : Str) (b : Bytes)
+    (hf : (d ++ '/' :: rest, b) ∈ fl) :
+    ∃ children, readDir (new fl) ('/' :: d) = .ok children ∧
+      (splitSlash rest).headD [] ∈ children ∧
+      metadata (new fl) ('/' :: d) =
+        .ok { ftype := .dir, len := 0, created := .unset, modified := .unset,
+              accessed := .unset } ∧
+      exists_ (new fl) ('/' :: d) = true ∧ openFile (new fl) ('/' :: d) = fail .fileNotFound := by
+  have hsp : splitSlash (d ++ '/' :: rest) = splitSlash d ++ splitSlash rest :=
+    C06.splitOnC_append '/' d rest
+  cases hr : splitSlash rest with
+  | nil => exact absurd hr (splitOnC_ne_nil _ _)
+  | cons c post =>
+    rw [hr] at hsp
+    obtain ⟨v, _, h2, _, h3, h4, h5, h6⟩ := dir_visible fl hF _ hf (splitSlash d) post c hsp
+    rw [key_splitSlash] at h3 h4 h5 h6
+    exact ⟨v, h3, h2, h4, h5, h6⟩
 
 /-! ### the root -/
 
